@@ -465,6 +465,12 @@ fn compile_mod_stage_1(
                     let delayed_constant_defs: Vec<(Vec<u8>, NodePtr)> =
                         delayed_constants.iter().map(|(k,v)| (k.clone(), *v)).collect();
 
+                    #[cfg(feature = "verif-hooks")]
+                    let delayed_constant_defs = crate::verif_hooks::ordered_pairs(
+                        "classic-module/delayed-constants",
+                        delayed_constant_defs,
+                    );
+
                     for (name, delayed_body) in delayed_constant_defs.iter() {
                         let main_list =
                             enlist(
